@@ -1428,7 +1428,7 @@ class LazyStackedTensorDict(TensorDictBase):
                     addbatchdim,
                     batch_size=[b for i, b in enumerate(td.batch_size) if i != in_dim],
                     names=(
-                        [name for i, name in enumerate(td.names) if i != in_dim]
+                        ([name for i, name in enumerate(td.names) if i != in_dim] or None)
                         if self._has_names()
                         else None
                     ),
